@@ -37,6 +37,12 @@ var (
 	verifDir = envOr("VF_VERIF", "/verif")
 )
 
+// evidenceDir is where evidence and replay files go (VF_EVIDENCE_DIR lets
+// experiments on scratch copies of the repository keep /verif/evidence intact).
+func evidenceDir() string {
+	return envOr("VF_EVIDENCE_DIR", filepath.Join(verifDir, "evidence"))
+}
+
 func envOr(k, d string) string {
 	if v := os.Getenv(k); v != "" {
 		return v
@@ -493,7 +499,7 @@ type replayOut struct {
 }
 
 func writeReplay(prop string, sp HarnessSpec, v *interp.Violation, n int) string {
-	dir := filepath.Join(verifDir, "evidence", "replays")
+	dir := filepath.Join(evidenceDir(), "replays")
 	os.MkdirAll(dir, 0o755)
 	path := filepath.Join(dir, fmt.Sprintf("%s-%s-%d.json", prop, v.Harness, n))
 	out := replayOut{Harness: v.Harness, Params: v.Params, Inputs: v.Inputs, Choices: v.Choices,
